@@ -69,6 +69,8 @@ class G_:
         if r < 0.85:
             b = self.rng.choice(["TRUE", "FALSE"])
             if self.rng.random() < 0.4:
+                if self.rng.random() < 0.3:
+                    return "b:" + b.lower(), [kw("BOOL"), G, sym("#"), G, lit("1" if b == "TRUE" else "0")]      # BOOL#1 / BOOL#0
                 return "b:" + b.lower(), [kw("BOOL"), G, sym("#"), G, kw(b)]
             return "b:" + b.lower(), [kw(b)]
         s = self.rng.choice(["", "a", "str", "x y", "(*c*)", "q$$", "END_IF"])
@@ -439,6 +441,8 @@ class D_:
         if r < 0.8:
             b = self.rng.choice(["TRUE", "FALSE"])
             if self.rng.random() < 0.3:
+                if self.rng.random() < 0.3:
+                    return "b:" + b.lower(), [kw("BOOL"), G, sym("#"), G, lit("1" if b == "TRUE" else "0")]
                 return "b:" + b.lower(), [kw("BOOL"), G, sym("#"), G, kw(b)]
             return "b:" + b.lower(), [kw(b)]
         s = self.rng.choice(["", "a", "x y"])
